@@ -16,23 +16,55 @@ import (
 	"github.com/varlink/go/varlink"
 )
 
+// serve starts Listen and waits until the listener exists, so that no scenario depends on how fast a goroutine gets going.
+// stopped receives the instant the serving call returned.
+func serve(svc *varlink.Service, addr string, timeout time.Duration) (done chan error, stopped *time.Time) {
+	done = make(chan error, 1)
+	stopped = new(time.Time)
+	go func() {
+		e := svc.Listen(context.Background(), addr, timeout)
+		*stopped = time.Now()
+		done <- e
+	}()
+	for t := 0; t < 5000; t++ {
+		if l, _ := svc.GetListener(); l != nil {
+			break
+		}
+		select {
+		case e := <-done:
+			done <- e
+			return
+		default:
+		}
+		time.Sleep(time.Millisecond)
+	}
+	return
+}
+
 func run(n int) string {
-	svc, _ := varlink.NewService("v", "p", "1", "u")
-	name := fmt.Sprintf("@vrf-clock-%d-%d", os.Getpid(), n)
-	addr := "unix:" + name
-	done := make(chan error, 1)
-	go func() { done <- svc.Listen(context.Background(), addr, 150*time.Millisecond) }()
+	var svc *varlink.Service
+	var name, addr string
+	var done chan error
 	var c net.Conn
 	var err error
-	for t := 0; t < 200; t++ {
+	// an idle service with a 150 ms timeout may legitimately stop before a slow harness has connected: try again then
+	for attempt := 0; attempt < 5; attempt++ {
+		svc, _ = varlink.NewService("v", "p", "1", "u")
+		name = fmt.Sprintf("@vrf-clock-%d-%d-%d", os.Getpid(), n, attempt)
+		addr = "unix:" + name
+		done, _ = serve(svc, addr, 150*time.Millisecond)
 		c, err = net.Dial("unix", name)
 		if err == nil {
 			break
 		}
-		time.Sleep(time.Millisecond)
+		svc.Shutdown()
+		select {
+		case <-done:
+		case <-time.After(2 * time.Second):
+		}
 	}
 	if err != nil {
-		return "could not connect: " + err.Error()
+		return "could not connect in five attempts: " + err.Error()
 	}
 	select {
 	case e := <-done:
@@ -116,33 +148,47 @@ func fsidle(n int) string {
 // from the start), and it must stop by 1.7 T plus slack.
 func late(n int) string {
 	const T = 400 * time.Millisecond
-	svc, _ := varlink.NewService("v", "p", "1", "u")
-	name := fmt.Sprintf("@vrf-clock-late-%d-%d", os.Getpid(), n)
-	done := make(chan error, 1)
-	start := time.Now()
-	go func() { done <- svc.Listen(context.Background(), "unix:"+name, T) }()
-	time.Sleep(time.Until(start.Add(7 * T / 10)))
-	c, err := net.Dial("unix", name)
-	if err != nil {
+	var svc *varlink.Service
+	var done chan error
+	var stopped *time.Time
+	var c net.Conn
+	var err error
+	var arrived time.Time
+	for attempt := 0; attempt < 5; attempt++ {
+		svc, _ = varlink.NewService("v", "p", "1", "u")
+		name := fmt.Sprintf("@vrf-clock-late-%d-%d-%d", os.Getpid(), n, attempt)
+		done, stopped = serve(svc, "unix:"+name, T)
+		time.Sleep(6 * T / 10)
+		arrived = time.Now() // taken BEFORE dialling: the listener cannot have seen the connection earlier than this
+		c, err = net.Dial("unix", name)
+		if err == nil {
+			break
+		}
+		// the harness was so slow that the first period had already passed: not the library's problem
 		svc.Shutdown()
-		return "late: could not connect at 0.7 T: " + err.Error()
+		select {
+		case <-done:
+		case <-time.After(2 * time.Second):
+		}
+	}
+	if err != nil {
+		return "late: could not connect in five attempts: " + err.Error()
 	}
 	c.Close()
-	arrived := time.Now()
-	select {
-	case e := <-done:
-		return fmt.Sprintf("late: the service stopped %v after its last new connection, the timeout is %v (%v)", time.Since(arrived).Round(time.Millisecond), T, e)
-	case <-time.After(time.Until(start.Add(14 * T / 10))):
-	}
 	select {
 	case e := <-done:
 		var te varlink.ServiceTimeoutError
 		if !errors.As(e, &te) {
 			return fmt.Sprintf("late: expected the timeout error, got %v", e)
 		}
-	case <-time.After(2 * time.Second):
+		// the period counts from the last new connection: the stop instant (taken inside the serving goroutine) is compared with an
+		// instant before the connection can have arrived - however slow this harness is, a correct service stops at least T after it
+		if d := stopped.Sub(arrived); d < T-60*time.Millisecond {
+			return fmt.Sprintf("late: the service stopped %v after its last new connection, the timeout is %v", d.Round(time.Millisecond), T)
+		}
+	case <-time.After(3 * time.Second):
 		svc.Shutdown()
-		return "late: service did not time out within 2 s after the last connection"
+		return "late: service did not time out within 3 s after the last connection"
 	}
 	return "ok"
 }
